@@ -60,8 +60,18 @@ def private(obj, name):
 
 
 # --------------------------------------------------------------------------- rationals
+class NonFinite(ValueError):
+    """The implementation produced nan/inf where the comparator needs a rational."""
+
+
 def Q(x):
-    """Exact rational string of an int / float / Fraction / numpy scalar."""
+    """Exact rational string of an int / float / Fraction / numpy scalar ("nan"/"inf"/"-inf" for
+    non-finite floats: equal to no rational string; `F` raises NonFinite on them)."""
+    try:
+        if x != x or x in (float("inf"), float("-inf")):
+            return "nan" if x != x else ("inf" if x > 0 else "-inf")
+    except Exception:
+        pass
     if isinstance(x, Fraction):
         f = x
     elif isinstance(x, bool):
@@ -89,8 +99,10 @@ def Qs(xs):
 
 def F(s):
     """Fraction of a driver rational string (or JSON int)."""
-    if isinstance(s, (int, float)):
-        return Fraction(s)
+    if isinstance(s, str) and s in ("nan", "inf", "-inf"):
+        raise NonFinite(s)
+    if isinstance(s, float) and (s != s or s in (float("inf"), float("-inf"))):
+        raise NonFinite(repr(s))
     return Fraction(s)
 
 
@@ -304,6 +316,11 @@ def jsonable(x):
 
 
 # --------------------------------------------------------------------------- main runner
+def _noobs(obs):
+    """no observables to compare with the model (the adapter raised, the case was skipped, or it is a witness)"""
+    return any(t in obs.get("tags", []) for t in ("adapter-crash", "no-observables"))
+
+
 def run_property(mod, tier, seed, replay=None, budget_s=None):
     pid = mod.PID
     t0 = time.time()
@@ -322,6 +339,13 @@ def run_property(mod, tier, seed, replay=None, budget_s=None):
             for f in sorted(os.listdir(corpus_dir)):
                 if f.endswith(".json"):
                     cases.append(dict(json.load(open(os.path.join(corpus_dir, f))), _src="corpus:" + f))
+        # the witnesses of earlier findings of this property (harness/witnesses.py) run first: a fixed defect that comes
+        # back is reported with its witness as the replay
+        from harness import witnesses
+        fixed_ids = {k["id"] for k in known if k["status"] == "fixed"}
+        for wid, (wp, _) in witnesses.ALL.items():
+            if wp == pid and wid in fixed_ids:
+                cases.append(dict(witness=wid, _src="witness:" + wid))
         ncorp = len(cases)
         gen = []
         for c in mod.cases(rng, tier):
@@ -343,6 +367,14 @@ def run_property(mod, tier, seed, replay=None, budget_s=None):
     aged_time = 0.0
 
     def run_one(case):
+        if case.get("witness"):
+            from harness import witnesses
+            try:
+                r = witnesses.ALL[case["witness"]][1]()
+            except Exception as e:
+                r = f"witness raised {type(e).__name__}: {e}"
+            return {"oracle": [] if r is None else [f"witness of fixed finding {case['witness']} fails again: {r}"],
+                    "tags": ["no-observables", "witness:" + case["witness"]]}
         try:
             if case.get("_aged"):
                 aging.reset(int(case_hash(jsonable({k: v for k, v in case.items() if not k.startswith("_")})), 16))
@@ -376,7 +408,7 @@ def run_property(mod, tier, seed, replay=None, budget_s=None):
             for tg in obs.get("tags", []):
                 tags[tg] = tags.get(tg, 0) + 1
             # an adapter that raised has no observables: the failure is reported, nothing is sent to the model
-            reqs = [] if "adapter-crash" in obs.get("tags", []) else mod.model_requests(case, obs)
+            reqs = [] if _noobs(obs) else mod.model_requests(case, obs)
             records.append((case, obs, reqs))
 
     flat = [r for _, _, reqs in records for r in reqs]
@@ -394,9 +426,12 @@ def run_property(mod, tier, seed, replay=None, budget_s=None):
                 for tg in r.get("tags", []) if isinstance(r.get("tags"), list) else []:
                     tags["model:" + tg] = tags.get("model:" + tg, 0) + 1
         try:
-            dis = [] if "adapter-crash" in obs.get("tags", []) else mod.compare(case, obs, rs)
+            dis = [] if _noobs(obs) else mod.compare(case, obs, rs)
         except MachineryError:
             raise
+        except NonFinite as e:      # a non-finite number where the model has a rational is a disagreement, not a crash
+            dis = [f"the implementation produced a non-finite number ({e}) where the model has a rational: "
+                   f"{traceback.format_exc().strip().splitlines()[-3][:200]}"]
         except Exception as e:
             raise MachineryError(f"comparator crashed on case {json.dumps(jsonable(case))[:600]}: "
                                  f"{traceback.format_exc()[-1500:]}") from e
@@ -404,14 +439,14 @@ def run_property(mod, tier, seed, replay=None, budget_s=None):
             failures.append(dict(case=case, kind="oracle", text=text))
         for text in dis:
             failures.append(dict(case=case, kind="correspondence", text=text))
-        if "adapter-crash" not in obs.get("tags", []) and mod.nontrivial(case, obs):
+        if not _noobs(obs) and mod.nontrivial(case, obs):
             c2 = {k: v for k, v in case.items() if not k.startswith("_")}
             distinct.add(case_hash(jsonable(c2)))
 
     # ---- classify failures
     known_seen, violations = {}, []
     for f in failures:
-        kid = mod.known(f["case"], f["text"]) if hasattr(mod, "known") else None
+        kid = mod.known(f["case"], f["text"]) if hasattr(mod, "known") and "witness" not in f["case"] else None
         if kid and kid in open_ids:
             known_seen.setdefault(kid, f)
         else:
